@@ -4,6 +4,7 @@ import json, os, sys
 ROOT = os.path.dirname(os.path.dirname(os.path.abspath(__file__)))
 sys.path.insert(0, os.path.join(ROOT, "tools"))
 import props
+CLAIMED = set(json.load(open(os.path.join(ROOT, 'tools', 'claimed.json'))))
 ALL = ["C%02d" % i for i in range(1, 21)]
 NOT_YET = "check not built yet in this round (planned, see DESIGN.md section 4); not claimed until its theorem and correspondence run exist"
 m = {
@@ -17,9 +18,9 @@ m = {
    "add_only": True,
  },
  "engines": [
-   {"name": "coq", "path": "coq/", "serves_properties": sorted(props.P.keys()),
+   {"name": "coq", "path": "coq/", "serves_properties": sorted(CLAIMED),
     "kind_free_text": "Rocq/Coq 8.16.1 development: executable models (coq/model), proofs (coq/proofs), property theorems with Print Assumptions (coq/props), evaluation entry points (coq/run), tables regenerated from /repo (coq/gen)"},
-   {"name": "harness", "path": "harness/", "serves_properties": sorted(props.P.keys()),
+   {"name": "harness", "path": "harness/", "serves_properties": sorted(CLAIMED),
     "kind_free_text": "Rust crate linking /repo with feature verif: generates cases from VERIF_SEED, runs the real code, emits the Gallina term of each input and the implementation's observation; ./chk evaluates model and property oracle in coqc (vm_compute) and compares"},
  ],
  "checks": [],
@@ -27,7 +28,7 @@ m = {
  "not_applicable": [],
 }
 for pid in ALL:
-    if pid in props.P:
+    if pid in props.P and pid in CLAIMED:
         c = props.P[pid]
         m["checks"].append({
           "property_id": pid,
